@@ -114,6 +114,10 @@ def make_task(chunk, sizes):
     return task
 
 
+from .BK_backend_ops import TRUSTED as BK_TRUSTED
+TRUSTED = TRUSTED + BK_TRUSTED
+
+
 def tasks(tier):
     import os
     seed = int(os.environ.get("VERIF_SEED", "0") or 0)
@@ -124,11 +128,17 @@ def tasks(tier):
     # invariants (C01 tier P); row a of every result is a function of row a of the parameters only
     from .C01_appliers import applier_tasks
     out += [(n, f) for n, f in applier_tasks(tier) if ",batched" in n]
+    # "every backend": each backend's wrapper methods are proved to be the tensor operations the contracts above assume
+    from .BK_backend_ops import backend_op_tasks
+    out += backend_op_tasks(tier)
     return out
 
 
 def replay(r):
     meta = r.get("meta") or {}
+    if meta.get("op") and meta.get("backend"):
+        from .BK_backend_ops import replay_backend_op
+        return replay_backend_op(r)
     skel = meta.get("skeleton")
     if skel is None:
         return None
